@@ -95,6 +95,10 @@ impl Chooser {
             if self.keep_log {
                 self.log.push(v);
             }
+            // safety net against a runaway generator loop (a harness bug, never a property violation)
+            if self.pos > 50_000_000 {
+                panic!("harness: more than 50M choices drawn in one run");
+            }
         }
         v
     }
